@@ -81,7 +81,7 @@ SIM_SCENARIO(scen_c14, "c14", "C14", 6000000, 30000) {
     switch (topo) {
     case 0: {   // chain F1 -> F2 -> sink
         world.ns[0].limit = c1; world.ns[1].limit = c2; world.ns[2].limit = 1;
-        auto b0 = [&](int m) { enter(0, m); leave(0); return m; };
+        auto b0 = [&](int m) noexcept { enter(0, m); leave(0); return m; };      // noexcept: otherwise oneTBB ignores the lightweight policy
         auto b1 = [&](int m) { enter(1, m); leave(1); return m; };
         function_node<int, int, queueing> f2(g, conc_of(c2), b1);
         function_node<int, continue_msg, queueing> sink(g, serial, sink_body(2));
@@ -175,7 +175,7 @@ SIM_SCENARIO(scen_c14, "c14", "C14", 6000000, 30000) {
         world.ns[0].limit = c1; world.ns[1].limit = 1; world.ns[2].limit = rc; world.ns[3].limit = 1;
         int in_flight = 0, max_in_flight = 0;
         limiter_node<int> lim(g, (size_t)threshold);
-        auto stage_body = [&](int m) { ++in_flight; if (in_flight > max_in_flight) max_in_flight = in_flight; enter(0, m); leave(0); return m; };
+        auto stage_body = [&](int m) noexcept { ++in_flight; if (in_flight > max_in_flight) max_in_flight = in_flight; enter(0, m); leave(0); return m; };
         function_node<int, continue_msg, queueing> commit(g, serial, [&](int m) -> continue_msg { enter(1, m); world.sunk[m]++; --in_flight; leave(1); return continue_msg(); });
         function_node<int, int, rejecting> rej(g, (size_t)rc, [&](int m) { enter(2, m); leave(2); return m; });
         function_node<int, continue_msg, queueing> sink2(g, serial, sink_body(3));
